@@ -87,6 +87,19 @@ theorem C20_quiescent (W : World) (prog : Nat → List Call) (sched : List Nat)
     · exact Or.inr (Or.inl ⟨hp, h⟩)
     · exact Or.inr (Or.inr h)
 
+/-- Resolution is permanent: once nothing is left to resolve (e.g. once any call has got as far as parsing),
+every later state, under every continuation of the schedule, still has every existing name rewritten. -/
+theorem C20_resolved_forever (W : World) (prog : Nat → List Call) (sched sched' : List Nat)
+    (hR : Resolved W (run W false (init W prog) sched).g) :
+    let g' := (run W false (init W prog) (sched ++ sched')).g
+    Resolved W g' ∧ ∀ i, W.ref i = true → W.defd i = true → g'.fty i = .res .parsed := by
+  have I := inv_reachable W prog sched
+  have I' := inv_reachable W prog (sched ++ sched')
+  have hR' : Resolved W (run W false (init W prog) (sched ++ sched')).g := by
+    rw [run_append]
+    exact hR.mono (run_pending_mono sched' I)
+  exact ⟨hR', fun i hr hd => resolved_fty I'.ginv hR' hr hd⟩
+
 /-- thread `k` cannot take a step now: it waits for the lock -/
 def blocked (s : Sys) (k : Nat) : Prop := (s.th k).pc = .lock ∧ s.g.lock ≠ none
 
